@@ -3,3 +3,6 @@ pub mod common;
 pub mod c02;
 pub mod c16;
 pub mod c14;
+pub mod c08;
+pub mod c07;
+pub mod c09;
